@@ -6,7 +6,7 @@
    Bound: versions are MAJOR.MINOR.PATCH; pre-release / build suffixes are outside the
    model (parse_version answers None for them). *)
 From Coq Require Import String Ascii.
-From LP Require Import Semver Migrate Params MigrateParams Consts SemverProofs SemverInj MigrateProofs MigrateParamsProofs.
+From LP Require Import Semver Migrate Params MigrateParams Consts SemverProofs SemverInj MigrateProofs MigrateHistory MigrateParamsProofs.
 Import ListNotations.
 Local Open Scope N_scope.
 
@@ -163,6 +163,29 @@ Theorem C20_accepts_older : forall c now st v,
   43200000000000 <= now ->
   is_ok (migrate c now None st) = true.
 Proof. exact accepts_older. Qed.
+
+(* ---- over histories: any sequence of migrate attempts (block time, optional factory
+   message) on one contract, refused attempts leaving the state as it is ---- *)
+Theorem C20_history_never_downgrades : forall c l st v,
+  parse_version (c_version st) = Some v ->
+  exists v', parse_version (c_version (fold_left (mig_step c) l st)) = Some v' /\ ver_ltb v' v = false.
+Proof. exact migrate_history_never_downgrades. Qed.
+
+Theorem C20_history_unparsable_stuck : forall c l st,
+  parse_version (c_version st) = None -> fold_left (mig_step c) l st = st.
+Proof. exact migrate_history_unparsable_stuck. Qed.
+
+Theorem C20_history_name : forall c l st,
+  c_name (fold_left (mig_step c) l st) = c_name st \/
+  c_name (fold_left (mig_step c) l st) = own_name c.
+Proof. exact migrate_history_name. Qed.
+
+Example C20_ex_history_vending :
+  let st := mkState "crates.io:sg-minter" "3.8.9" (mkSlots None None None None None None None (Some 5)) in
+  let st' := fold_left (mig_step VendingMinter) [(100000000000000, None); (7, None); (200000000000000, None)] st in
+  c_version st' = "3.16.0"%string /\ s_last_discount (c_slots st') = Some (100000000000000 - 43200000000000) /\
+  s_mintable (c_slots st') = Some 5.
+Proof. vm_compute. repeat split; reflexivity. Qed.
 
 (* ---- recorded version afterwards ---- *)
 Theorem C20_post_version : forall c now msg st st' p,
@@ -395,3 +418,7 @@ Print Assumptions C20_parse_version_rejects_other_chars.
 Print Assumptions C20_parse_num_leading_zero.
 Print Assumptions C20_parse_version_boundaries.
 Print Assumptions C20_parse_version_canonical.
+Print Assumptions C20_history_never_downgrades.
+Print Assumptions C20_history_unparsable_stuck.
+Print Assumptions C20_history_name.
+Print Assumptions C20_ex_history_vending.
